@@ -17,7 +17,7 @@ CLAIMS = {
          'Not covered: that the reported budget equals the definition evaluated on the true phase (dot_product_ct_sk_array uses the NTT; RNSBase::compose_array (CRT) is not under contract), the fresh-budget and additive bounds themselves (need the ring norm inequality over the NTT/CRT representation), exact decryption below the threshold.', '5 C07'),
  'C08': ('Every listed word-level and multi-word primitive carries a contract against an integer specification (x mod q, limb-sequence value, '
          'gcd/Bezout definition, pow) and Verus discharges it for all moduli 2<=q<2^61, all operands and all word counts, function by function. '
-         'Also: compare_uint and the five comparison wrappers, get_significant_uint64_count_uint, get_significant_bit_count_uint, half_round_up_uint, hamming_weight, get_power_of_two (units c08_cmp, c16_sample, c13_params). multiply_many_u64 returns the exact product (k words always hold a product of k words); add_uint_mod / add_uint_mod_inplace / sub_uint_mod return (a +- b) mod m for equal-length operands below the modulus (unit c08_uintmod). Not covered: bit-serial divide_uint*/divide_u192 (assumed contract), multiply_uint general path, variable-length shifts, negate_uint_mod and the remaining *_uint_mod helpers.', '5 C08'),
+         'Also: compare_uint and the five comparison wrappers, get_significant_uint64_count_uint, get_significant_bit_count_uint, half_round_up_uint, hamming_weight, get_power_of_two (units c08_cmp, c16_sample, c13_params). multiply_many_u64 returns the exact product (k words always hold a product of k words); add_uint_mod / add_uint_mod_inplace / sub_uint_mod return (a +- b) mod m for equal-length operands below the modulus (unit c08_uintmod). naf (unit c08_nt) returns digits that add up to the value, each plus or minus a power of two (for |value| <= 2^28: beyond 2^30 its top digit does not fit an i32), with every shift and product shown free of overflow and the loop terminating. Not covered: bit-serial divide_uint*/divide_u192 (assumed contract), multiply_uint general path, variable-length shifts, negate_uint_mod and the remaining *_uint_mod helpers.', '5 C08'),
  'C01': ('The arithmetic anchor of BFV encryption/decryption exactness: scaling_variant::multiply_add_plain and multiply_sub_plain are proved, for every plain modulus t, every level and every plaintext with coefficients below t, to add/subtract in every RNS word '
          'exactly D*m + floor((R*m + floor((t+1)/2))/t) mod q_j (D = floor(Q/t) mod q_j and R = Q mod t taken from the level constants) and to leave all other words untouched; a spec-level theorem shows this equals floor((Q*m + floor((t+1)/2))/t), '
          'i.e. round(Q*m/t) computed without big integers. ASSUMED: the level constants equal their definitions (C13). '
